@@ -3,6 +3,7 @@ rules (stateless elections) and by an independent remaining-wait model (Confirme
 explicit-state exploration of the joint implementation/model state graph)."""
 import copy
 import itertools
+import pickle
 
 import icontract
 import numpy as np
@@ -22,7 +23,8 @@ RULE = (
     "distinct (kind, n, parameters)."
 )
 ASSUMPTIONS = [
-    "members are observed only through their drift_state attribute (stub members with that attribute)",
+    "members are observed only through their drift_state attribute (stub members with that attribute); the states are handed over as "
+    "source literals, as equal-but-distinct str objects (members restored by pickle) and as numpy.str_",
     "parameters range over 0..n+1 (approvals and confirmations 0 only where their sum is >= 1)",
 ]
 S = (None, "warning", "drift")
@@ -33,6 +35,11 @@ class Stub:
 
     def __init__(self, st):
         self.drift_state = st
+
+
+def fresh(s):
+    """an equal but distinct string object: what a member restored by pickle, or a state parsed from a message, carries"""
+    return None if s is None else "".join(list(s))
 
 
 class PostBroken(Exception):
@@ -104,7 +111,8 @@ def cases(tier, seed):
 def targets(tier):
     return {"stateless_evaluations": 10000, "confirmed_transitions": 10000, "confirmed_joint_states": 300,
             "monotonicity_flips": 3000, "contract_evaluations": 20000, "confirmed_drift": 100,
-            "confirmed_warning": 100, "random_sequence_steps": 5000, "shared_instance_calls": 5000}
+            "confirmed_warning": 100, "random_sequence_steps": 5000, "shared_instance_calls": 5000,
+            "evaluations_with_equal_but_distinct_state_objects": 20000}
 
 
 def expected_stateless(case, k, n):
@@ -157,8 +165,13 @@ def run_case(case, ctx):
             dets = [Stub(s) for s in vec]
             k = sum(s == "drift" for s in vec)
             # both container kinds the library itself uses: list and dict values view
-            for form in ("list", "dict_values"):
-                arg = dets if form == "list" else {i: d for i, d in enumerate(dets)}.values()
+            for form in ("list", "dict_values", "restored_members", "numpy_strings"):
+                if form == "restored_members":
+                    arg = pickle.loads(pickle.dumps(dets)) if n % 2 else [Stub(fresh(s)) for s in vec]
+                elif form == "numpy_strings":
+                    arg = [Stub(None if s is None else np.str_(s)) for s in vec]
+                else:
+                    arg = dets if form == "list" else {i: d for i, d in enumerate(dets)}.values()
                 try:
                     r = el(arg)
                 except PostBroken as e:
@@ -167,6 +180,8 @@ def run_case(case, ctx):
                     continue
                 ctx.count("stateless_evaluations")
                 ctx.count("contract_evaluations")
+                if form in ("restored_members", "numpy_strings") and any(m.drift_state == "drift" and m.drift_state is not S[2] for m in arg):
+                    ctx.count("evaluations_with_equal_but_distinct_state_objects")
                 exp = "drift" if expected_stateless(case, k, n) else None
                 seen.add(r)
                 if r != exp:
@@ -199,7 +214,7 @@ def run_case(case, ctx):
             vec = tuple(S[j] for j in rng.integers(0, 3, size=n))
             k = sum(s == "drift" for s in vec)
             exp = "drift" if expected_stateless(params, k, n) else None
-            r = el([Stub(s) for s in vec])
+            r = el([Stub(fresh(s) if (step + j) % 2 else s) for j, s in enumerate(vec)])
             ctx.count("shared_instance_calls")
             seen.add(r)
             if r != exp:
@@ -224,7 +239,7 @@ def run_case(case, ctx):
             for vec in itertools.product(S, repeat=n):
                 e2 = copy.deepcopy(e)
                 try:
-                    r = e2([Stub(s) for s in vec])
+                    r = e2([Stub(fresh(s) if (j + len(visited)) % 2 else s) for j, s in enumerate(vec)])
                 except PostBroken as ex:
                     ctx.violation("C13/confirmed/counter_bound_or_range",
                                   "postcondition failed (counters <= wait_time, verdict domain): %s" % ex,
@@ -271,7 +286,7 @@ def run_case(case, ctx):
         for t in range(steps):
             vec = tuple(S[j] for j in rng.choice(3, size=n, p=p))
             try:
-                r = e([Stub(s) for s in vec])
+                r = e([Stub(fresh(s) if (j + t) % 2 else s) for j, s in enumerate(vec)])
             except PostBroken as ex:
                 ctx.violation("C13/confirmed/counter_bound_or_range", str(ex), params=[n, sens, wt], step=t, votes=vec)
                 break
